@@ -192,12 +192,29 @@ func c19Check(c C19Case, rec *evid.Rec) error {
 		if err != nil {
 			return fmt.Errorf("%s: Marshal (%s) failed: %w", what, c.Codec, err)
 		}
+		// the streaming entry points are the same functions over a writer / reader: same bytes out, same value in
+		var sbuf bytes.Buffer
+		err = evid.Guard("ipld.MarshalStreaming", func() error {
+			if c.Codec == "dag-json" {
+				return ipld.MarshalStreaming(&sbuf, dagjson.Encode, gv.Addr().Interface(), st)
+			}
+			return ipld.MarshalStreaming(&sbuf, dagcbor.Encode, gv.Addr().Interface(), st)
+		})
+		if err != nil || !bytes.Equal(sbuf.Bytes(), data) {
+			return fmt.Errorf("%s: MarshalStreaming (%s) wrote %s (err %v), Marshal returned %s", what, c.Codec, clip(sbuf.Bytes()), err, clip(data))
+		}
 		fresh := reflect.New(gt)
+		streaming := len(data)%2 == 1
 		err = evid.Guard("ipld.Unmarshal", func() error {
 			var e error
-			if c.Codec == "dag-json" {
+			switch {
+			case streaming && c.Codec == "dag-json":
+				_, e = ipld.UnmarshalStreaming(bytes.NewReader(data), dagjson.Decode, fresh.Interface(), st)
+			case streaming:
+				_, e = ipld.UnmarshalStreaming(bytes.NewReader(data), dagcbor.Decode, fresh.Interface(), st)
+			case c.Codec == "dag-json":
 				_, e = ipld.Unmarshal(data, dagjson.Decode, fresh.Interface(), st)
-			} else {
+			default:
 				_, e = ipld.Unmarshal(data, dagcbor.Decode, fresh.Interface(), st)
 			}
 			return e
@@ -245,7 +262,7 @@ func isUTF8(s string) bool { return strings.ToValidUTF8(s, "\x00\x00") == s }
 
 var c19Part = evid.Part[C19Case]{
 	Prop: "C19", Name: "bind", Quick: 2500, Thorough: 1500000,
-	Rule: "schema × typed value × user-supplied Go type assembled with reflect in a drawn variation (int/int8..int64/uint8..uint64/uint per Int position, float32/float64, cid.Cid / cidlink.Link / datamodel.Link, *T for optional or nullable, **T for both, nil-able slices as optionals, struct{Keys;Values} ordered maps, union structs of pointers, string- or int-backed enums, datamodel.Node for Any) × codec; Wrap must read as the value (type and representation level), building through the prototype and Unwrap must give a Go value holding the same data (also with the Go type bindnode infers from the schema, re-wrapped and compared with the reference views), Unmarshal(Marshal(v)) into a fresh value must hold the same data (ordered-map order modulo the codec's canonical order); non-trivial = a pointer-maybe, a narrow/unsigned/float32 position or an ordered map is exercised; distinct by the whole case",
+	Rule: "schema × typed value × user-supplied Go type assembled with reflect in a drawn variation (int/int8..int64/uint8..uint64/uint per Int position, float32/float64, cid.Cid / cidlink.Link / datamodel.Link, *T for optional or nullable, **T for both, nil-able slices as optionals, struct{Keys;Values} ordered maps, union structs of pointers, string- or int-backed enums, datamodel.Node for Any) × codec; Wrap must read as the value (type and representation level), building through the prototype and Unwrap must give a Go value holding the same data (also with the Go type bindnode infers from the schema, re-wrapped and compared with the reference views), Unmarshal(Marshal(v)) into a fresh value must hold the same data (ordered-map order modulo the codec's canonical order; MarshalStreaming must write the same bytes, and half of the decodes go through UnmarshalStreaming); non-trivial = a pointer-maybe, a narrow/unsigned/float32 position or an ordered map is exercised; distinct by the whole case",
 	Gen: func(t *rapid.T) C19Case {
 		s, typ, tv := genSchemaValue(t, tschema.GenOpts{MaxTypes: 5})
 		return C19Case{S: s, Type: typ, TV: tv, Ch: gobind.Choices{C: rapid.SliceOfN(rapid.Byte(), 0, 16).Draw(t, "choices")}, Prog: rapid.SliceOfN(rapid.Byte(), 0, 8).Draw(t, "prog"),
